@@ -84,6 +84,58 @@ def sigencode_der(r: int, s: int) -> bytes:
     return encode_sequence(encode_integer(r), encode_integer(s))
 
 
+def _lax_length(sig: bytes, pos: int) -> tuple[int, int]:
+    # read a DER length at pos the way Bitcoin's lax parser does; return (length, new pos)
+    if pos >= len(sig):
+        raise UnexpectedDER("ran out of length bytes")
+    length = sig[pos]
+    pos += 1
+    if length & 0x80:
+        llen = length - 0x80
+        if llen > len(sig) - pos:
+            raise UnexpectedDER("ran out of length bytes")
+        while llen > 0 and sig[pos] == 0:
+            pos += 1
+            llen -= 1
+        if llen >= 4:
+            raise UnexpectedDER("length too large")
+        length = int.from_bytes(sig[pos : pos + llen], "big")
+        pos += llen
+    return length, pos
+
+
+def sigdecode_der_lax(sig_der: bytes) -> tuple[int, int]:
+    """
+    Decode a signature the way Bitcoin consensus does for scripts validated without
+    BIP66 strictness (``ecdsa_signature_parse_der_lax``): the sequence length is ignored,
+    integers may be padded or "negative" (the sign is ignored), trailing bytes are ignored.
+    An integer that does not fit in 32 bytes yields ``(0, 0)``, which never verifies.
+    """
+    if sig_der[:1] != b"\x30":
+        raise UnexpectedDER("wanted sequence (0x30)")
+    pos = 1
+    if pos >= len(sig_der):
+        raise UnexpectedDER("ran out of length bytes")
+    if sig_der[pos] & 0x80:
+        llen = sig_der[pos] - 0x80
+        if llen > len(sig_der) - pos - 1:
+            raise UnexpectedDER("ran out of length bytes")
+        pos += llen
+    pos += 1
+    values = []
+    for _ in range(2):
+        if sig_der[pos : pos + 1] != b"\x02":
+            raise UnexpectedDER("did not get expected integer 0x02")
+        length, pos = _lax_length(sig_der, pos + 1)
+        if length > len(sig_der) - pos:
+            raise UnexpectedDER("ran out of integer bytes")
+        values.append(sig_der[pos : pos + length].lstrip(b"\0"))
+        pos += length
+    if any(len(v) > 32 for v in values):
+        return 0, 0
+    return int.from_bytes(values[0], "big"), int.from_bytes(values[1], "big")
+
+
 def sigdecode_der(sig_der: bytes, use_broken_open_ssl_mechanism: bool = True) -> tuple[int, int]:
     # if use_broken_open_ssl_mechanism is true, this is a non-standard implementation
     rs_strings, remainder = remove_sequence(sig_der)
